@@ -137,6 +137,7 @@ class FutureResult(object):
         """
         self._logger = logger or logging.getLogger(__name__)
         self._done_event = EventData()
+        self.__lock = threading.Lock()
         self.__callback = None
         self.__extra = None
 
@@ -144,12 +145,18 @@ class FutureResult(object):
         """
         Notify the given callback about the result of the execution
         """
-        if self.__callback is not None:
+        with self.__lock:
+            # Consume the registration: it must be notified only once, even
+            # if set_callback() is called while the execution ends
+            callback = self.__callback
+            extra = self.__extra
+            self.__callback = None
+            self.__extra = None
+
+        if callback is not None:
             try:
-                self.__callback(
-                    self._done_event.data,
-                    self._done_event.exception,
-                    self.__extra,
+                callback(
+                    self._done_event.data, self._done_event.exception, extra
                 )
             except Exception as ex:
                 self._logger.exception("Error calling back method: %s", ex)
@@ -165,8 +172,10 @@ class FutureResult(object):
         :param method: The method to call back in the end of the execution
         :param extra: Extra parameter to be given to the callback method
         """
-        self.__callback = method
-        self.__extra = extra
+        with self.__lock:
+            self.__callback = method
+            self.__extra = extra
+
         if self._done_event.is_set():
             # The execution has already finished
             self.__notify()
